@@ -1,11 +1,14 @@
 #!/bin/bash
-# try_mutant.sh <patch.diff> <Cxx> [tier] : apply a seeded change to /repo, run one check, undo it.
-# Prints DETECTED / MISSED and the first VIOLATION lines.  (-R as 4th arg reverse-applies the patch.)
+# try_mutant.sh <patch.diff> <Cxx> [tier] [-R] : run one check against a seeded change.
+# The change is applied to a scratch worktree of /repo HEAD (EMD_REPO points the harness at it), so that /repo itself
+# is never modified and other runs that read /repo are not disturbed.  Prints DETECTED / MISSED and the first
+# VIOLATION lines.  (-R as 4th argument reverse-applies the patch: used by revert_fix.sh.)
 P=$1; ID=$2; TIER=${3:-quick}; REV=${4:-}
-[ -z "$(git -C /repo status --porcelain)" ] || { echo "/repo not clean"; exit 2; }
-git -C /repo apply $REV "$P" 2>/dev/null || git -C /repo apply $REV --3way "$P" || { echo "patch does not apply"; git -C /repo reset -q; git -C /repo checkout -- .; exit 2; }
-trap 'git -C /repo reset -q; git -C /repo checkout -- . ' EXIT
-OUT=$(cd /verif && timeout 3000 ./check $ID --tier $TIER 2>&1); rc=$?
+WT=/var/tmp/try_$$
+git -C /repo worktree add -q --detach $WT HEAD || exit 2
+trap 'git -C /repo worktree remove --force $WT 2>/dev/null; rm -rf $WT; git -C /repo worktree prune' EXIT
+git -C $WT apply $REV "$P" 2>/dev/null || git -C $WT apply $REV --3way "$P" || { echo "patch does not apply"; exit 2; }
+OUT=$(cd /verif && EMD_REPO=$WT VERIF_NO_EVIDENCE=1 timeout 3000 ./check $ID --tier $TIER 2>&1); rc=$?
 echo "$OUT" | grep -E "^VIOLATION|^  |MACHINERY|KNOWN-FINDING" | head -8
 echo "$OUT" | tail -1
 if [ $rc = 1 ]; then echo "DETECTED $ID <- $P"; elif [ $rc = 0 ]; then echo "MISSED $ID <- $P"; else echo "ERROR rc=$rc $ID <- $P"; echo "$OUT" | tail -15; fi
